@@ -7,7 +7,7 @@ K = e3.EV
 
 
 class Grammar(qc.FullGrammar):
-    thread_kinds = [("async", 6), ("basync", 1), ("sync", 3), ("bsync", 1), ("aaw", 1), ("gasync", 1), ("await", 2), ("work", 1), ("retain_release", 2), ("setctx", 1), ("after", 2), ("gnotify", 1)]
+    thread_kinds = [("async", 6), ("basync", 1), ("sync", 3), ("bsync", 1), ("aaw", 1), ("gasync", 1), ("await", 2), ("work", 1), ("retain_release", 2), ("setctx", 1), ("after", 2), ("gnotify", 1), ("suspend_pair", 2)]
     body_kinds = [("work", 3), ("async", 3), ("sync", 1)]
     max_depth = 2
     payload = 1
@@ -49,7 +49,14 @@ class Grammar(qc.FullGrammar):
                     d["target"] = nt
                     P.op(t, "settarget", a=q, b=nt, thread=t)
                     P.features.add("retarget-before-activation")
+                sus = (h[19] >> (q % 6 + 2)) & 1     # dispatch_suspend on the still inactive queue, balanced right after the activation
+                if sus:
+                    tk = P.tok()
+                    P.op(t, "suspend", a=q, b=tk, q=q, thread=t, in_item=False, onq=-1, item_kind=None)
+                    P.features.add("suspended-while-inactive")
                 P.op(t, "activate", a=q, b=-1, thread=t)
+                if sus:
+                    P.op(t, "resume", a=q, b=tk, c=1, q=q, thread=t)
                 P.features.add("inactive-with-target" if d.get("itarget", d["target"]) in P.custom and d["flags"] & 2 else "inactive")
         for q in P.custom:
             bt = P.bottom(q)
@@ -68,6 +75,27 @@ class Grammar(qc.FullGrammar):
                 o = P.op(env.ctx, "async", a=q, b=0, q=q, thread=env.thread, depth=0)
                 P.op(P.body(o), "work", a=40)
             return P.op(env.ctx, "release", a=q, thread=env.thread)
+        if kind == "suspend_pair":
+            # balanced suspension by the owner (nothing is left suspended when the owner's last release comes), nested up to beyond the in-line counter
+            n = [1, 1, 2, 3, 64, 65, 100][b % 7]
+            t0 = P.next_tok
+            P.next_tok += n
+            P.op(env.ctx, "suspend", a=q, b=t0, c=n, q=q, thread=env.thread, in_item=False, onq=-1, item_kind=None, n=n)
+            if c % 2:
+                o = P.op(env.ctx, "async", a=q, b=0, q=q, thread=env.thread, depth=0)
+                P.op(P.body(o), "work", a=20)
+            if n >= 64 and c % 3 == 0:       # part of the way down and up again: crosses the side-counter transfer with the in-line count at zero
+                k = n // 2
+                P.op(env.ctx, "resume", a=q, b=t0, c=k, q=q, thread=env.thread)
+                t1 = P.next_tok
+                P.next_tok += 1
+                P.op(env.ctx, "suspend", a=q, b=t1, c=1, q=q, thread=env.thread, in_item=False, onq=-1, item_kind=None, n=1)
+                P.op(env.ctx, "resume", a=q, b=t1, c=1, q=q, thread=env.thread)
+                P.op(env.ctx, "resume", a=q, b=t0 + k, c=n - k, q=q, thread=env.thread)
+            else:
+                P.op(env.ctx, "resume", a=q, b=t0, c=n, q=q, thread=env.thread)
+            P.features.add("suspend-pair" + ("-nested>=64" if n >= 64 else ""))
+            return None
         if kind == "setctx":
             P.ctxver[q] += 1
             return P.op(env.ctx, "setctx", a=q, b=P.ctxver[q], thread=env.thread)
@@ -91,7 +119,7 @@ class Grammar(qc.FullGrammar):
                 continue     # some thread passes this queue to dispatch_set_target_queue at an unordered time: the application must still hold it then
             idx = None
             for i, o in enumerate(P.order):
-                if o.ctx == env.ctx and o.kind in e3.SUBMIT_KINDS + ("after", "gnotify", "retain", "release", "setctx", "activate", "settarget", "await") and o.a == q:
+                if o.ctx == env.ctx and o.kind in e3.SUBMIT_KINDS + ("after", "gnotify", "retain", "release", "setctx", "activate", "settarget", "await", "suspend", "resume") and o.a == q:
                     idx = i
                 if o.ctx == env.ctx and o.kind == "await" and o.a in P.ops and P.ops[o.a].a == q:
                     idx = i
@@ -182,7 +210,7 @@ class Check(E3Check):
     mc_workers = 2
     rule = ("part 1 (queues): Hypothesis recipe -> program over a generated queue graph (serial/concurrent queues chained through targets, some created initially inactive with a target at "
             "creation, some retargeted before activation) in which every queue has a context + finalizer and some have queue-specific data with destructors. Each queue "
-            "is used directly only by its owner thread; items only touch queues their own execution keeps alive. Lifetime stress: extra balanced retain/release pairs, "
+            "is used directly only by its owner thread; items only touch queues their own execution keeps alive. Lifetime stress: extra balanced retain/release pairs, balanced dispatch_suspend/dispatch_resume by the owner (also on a still inactive queue, and nested beyond the in-line counter), "
             "dispatch_set_context updates, and the application's LAST release placed right after the owner's last use - i.e. while items, dispatch_after blocks or group "
             "notifications of that queue are still pending or running, and while other queues still target it. All workers run the AddressSanitizer build with "
             "LeakSanitizer at exit. Oracles: no ASan/LSan report or crash; each finalizer exactly once, after the application's last release began, after every item of "
